@@ -696,15 +696,88 @@ func inAtomicCAS(ex *Exec, fn *ssa.Function, args []Value) (Value, bool) {
 }
 
 func inSprintf(ex *Exec, fn *ssa.Function, args []Value) (Value, bool) {
-	s, ok := ex.formatNative(args[0], args[1])
-	if !ok {
-		ex.stubsSeen["fmt.Sprintf/Errorf with symbolic operands -> opaque text \"<fmt>\""] = true
-		s = "<fmt>"
+	var res *StrV
+	if s, ok := ex.formatNative(args[0], args[1]); ok {
+		res = ex.strConst(s)
+	} else if sv, ok := ex.formatSymbolic(args[0], args[1]); ok {
+		res = sv
+	} else {
+		ex.stubsSeen["fmt.Sprintf/Errorf with unsupported symbolic operands -> opaque text \"<fmt>\""] = true
+		res = ex.strConst("<fmt>")
 	}
 	if fn.Name() == "Errorf" {
-		return ex.errorValue(s), true
+		et := ex.ld.errorStringType
+		if et == nil {
+			ex.inconclusive("errors.errorString type not loaded")
+		}
+		c := ex.newCell(et)
+		ex.storeCell(c.kids[0], res)
+		return IfaceV{t: types.NewPointer(et), v: PtrV{c: c}}, true
 	}
-	return ex.strConst(s), true
+	return res, true
+}
+
+// formatSymbolic handles %s / %v / %d / %q-free formats whose string operands may hold symbolic bytes:
+// the operand's bytes are spliced into the result (what fmt does for strings).
+func (ex *Exec) formatSymbolic(format Value, va Value) (*StrV, bool) {
+	f, ok := concreteStr(format)
+	if !ok {
+		return nil, false
+	}
+	ops := ex.sliceElems(va.(SliceV))
+	var out []*Term
+	k := 0
+	for i := 0; i < len(f); i++ {
+		if f[i] != '%' {
+			out = append(out, ex.byteConst[f[i]])
+			continue
+		}
+		i++
+		if i >= len(f) {
+			return nil, false
+		}
+		if f[i] == '%' {
+			out = append(out, ex.byteConst['%'])
+			continue
+		}
+		if k >= len(ops) {
+			return nil, false
+		}
+		iv, ok := ops[k].(IfaceV)
+		k++
+		if !ok {
+			return nil, false
+		}
+		switch f[i] {
+		case 's', 'v':
+			if sv, ok := iv.v.(*StrV); ok {
+				out = append(out, sv.b...)
+				continue
+			}
+			// error values print their message
+			if p, ok := iv.v.(PtrV); ok && p.c != nil && ex.ld.errorStringType != nil && types.Identical(p.c.typ, ex.ld.errorStringType) {
+				out = append(out, ex.loadCell(p.c.kids[0]).(*StrV).b...)
+				continue
+			}
+			g, ok := ex.toGo(iv)
+			if !ok {
+				return nil, false
+			}
+			out = append(out, ex.strConst(fmt.Sprintf("%"+string(f[i]), g)).b...)
+		case 'd':
+			g, ok := ex.toGo(iv)
+			if !ok {
+				return nil, false
+			}
+			out = append(out, ex.strConst(fmt.Sprintf("%d", g)).b...)
+		default:
+			return nil, false
+		}
+	}
+	if k != len(ops) {
+		return nil, false
+	}
+	return &StrV{b: out}, true
 }
 
 // formatNative runs the real fmt.Sprintf when the format and all operands are concrete scalars/strings.
